@@ -9,10 +9,12 @@ Driver for C08.  Protocol (one case):
   bind <var> <addr> <bool|byte|word|dword|lword|sint>  (the runtime's binding list, in order)
   drv <read-fail calls|-> <write-fail calls|->         (one line per logging driver)
   retain <store-fail calls|-|none>
+  expired <clock values (ns) at which the execution deadline lies in the past|->
   vars <initial values of the bound/global variables>
   init <t0> <inputs hex> <outputs hex> <memory hex>    (ends the configuration)
 then operations, each followed by the implementation's `impl …` line:
   policy|wd <halt|safe|restart>, safe <n> (<addr> <value>)*, dbg <addr> <value>, adv <dt>,
+  force <addr> <value>, release <addr>,
   cycle, watchdog, simfault, restart <warm|cold>, clear
 <addr> = <I|Q|M>:<X|B|W|D|L>:<byte>:<bit>:<wildcard 0|1>:<path a.b.c|->
 <value> = b<0|1> | B<n> | W<n> | D<n> | L<n> | i<n>
@@ -92,6 +94,7 @@ def showErr : Err → String
   | .ioDriverRead d => s!"IoDriver:r{d}"
   | .ioDriverWrite d => s!"IoDriver:w{d}"
   | .retainStore => "RetainStore"
+  | .executionTimeout => "ExecutionTimeout"
   | .other n => s!"Other{n}"
 
 def showValue : Value → String
@@ -113,6 +116,7 @@ def showEv : Ev → Option String
   | .prog _ _ => none
 
 def showProg : Ev → Option String
+  | .prog _ 0 => none
   | .prog p n => some s!"{p}:{n}"
   | _ => none
 
@@ -122,6 +126,7 @@ structure St where
   bindings : List Binding := []
   drivers : List DrvScript := []
   retain : Option (List Nat) := none
+  expired : List Int := []
   vars : List Int := []
   cfg : Option Cfg := none
   rs : Option (RState CStore CEnv) := none
@@ -179,6 +184,10 @@ def stepLine (st : St) (line : String) : St × Option String :=
     match parseCsv? f with
     | some f => ({ st with retain := some f }, none)
     | none => (st, some "bad-op")
+  | ["expired", f] =>
+    match (if f = "-" then some [] else (f.splitOn ",").mapM (·.toInt?)) with
+    | some f => ({ st with expired := f }, none)
+    | none => (st, some "bad-op")
   | "vars" :: vs =>
     match parseInts? vs with
     | some vs => ({ st with vars := vs }, none)
@@ -187,7 +196,7 @@ def stepLine (st : St) (line : String) : St × Option String :=
     match t0.toInt?, parseHex? i, parseHex? o, parseHex? m with
     | some t0, some i, some o, some m =>
       let cfg : Cfg := { tasks := st.tasks, progs := st.progs, bindings := st.bindings, drivers := st.drivers,
-                         initVars := st.vars, retain := st.retain }
+                         initVars := st.vars, retain := st.retain, expiredAt := st.expired }
       let io : Io := { inputs := i, outputs := o, memory := m, hier := [] }
       ({ st with cfg := some cfg, rs := some (Conc.initState cfg io t0) }, none)
     | _, _, _, _ => (st, some "bad-op")
@@ -207,6 +216,14 @@ def stepLine (st : St) (line : String) : St × Option String :=
     match parseAddr? a, parseValue? v with
     | some a, some v => doOp st (.dbgWrite a v)
     | _, _ => (st, some "bad-op")
+  | ["force", a, v] =>
+    match parseAddr? a, parseValue? v with
+    | some a, some v => doOp st (.forceIo a v)
+    | _, _ => (st, some "bad-op")
+  | ["release", a] =>
+    match parseAddr? a with
+    | some a => doOp st (.releaseIo a)
+    | none => (st, some "bad-op")
   | ["adv", dt] =>
     match dt.toInt? with
     | some dt => doOp st (.advance dt)
